@@ -5,6 +5,7 @@ import (
 	"fmt"
 	"strings"
 
+	"github.com/kyleconroy/sqlc/internal/engine/dolphin"
 	"github.com/kyleconroy/sqlc/internal/engine/postgresql"
 	"github.com/kyleconroy/sqlc/internal/sql/ast"
 	"github.com/kyleconroy/sqlc/internal/sql/catalog"
@@ -140,4 +141,13 @@ func typeInfo(written string) [3]string {
 	}
 	typeInfoCache[written] = res
 	return res
+}
+
+func parseEngine(engine, sql string) (int, error) {
+	if engine == "mysql" {
+		st, err := dolphin.NewParser().Parse(strings.NewReader(sql))
+		return len(st), err
+	}
+	st, err := pgParse(sql)
+	return len(st), err
 }
